@@ -3,9 +3,10 @@
 // C38 harness: dnsmessage.ResourceHeader SetEDNS0 / ExtendedRCode / DNSSECAllowed.
 //
 // ops:  edns <len> <ext> <do>   h.SetEDNS0(len, ext, do==1)
-//                               -> ok <Type> <Class> <TTL> <ExtendedRCode(ext&15)> <DNSSECAllowed>
-//       xr <ttl> <rcode>        ResourceHeader{TTL: ttl}.ExtendedRCode(rcode)  -> ok <rcode>
-//       do <ttl>                ResourceHeader{TTL: ttl}.DNSSECAllowed()       -> ok 0|1
+//
+//	                        -> ok <Type> <Class> <TTL> <ExtendedRCode(ext&15)> <DNSSECAllowed>
+//	xr <ttl> <rcode>        ResourceHeader{TTL: ttl}.ExtendedRCode(rcode)  -> ok <rcode>
+//	do <ttl>                ResourceHeader{TTL: ttl}.DNSSECAllowed()       -> ok 0|1
 //
 // Cases 0..8191 enumerate every (ext < 4096, do) pair with boundary + sampled payload sizes
 // (exhaustive over ext × do in every run with n >= 8192); the oracle additionally sweeps all
